@@ -474,7 +474,7 @@ def path_sites(program):
 
 
 def check_sanitize(ctx, scope=('output-root', 'log-root', 'report-root',
-                               'parameter root'), floor=8):
+                               'parameter root'), floor=6):
     program = ctx.program
     sites = path_sites(program)
     sites = [s for s in sites if s[2] in scope]
@@ -661,11 +661,45 @@ def check_sanitizer_body(ctx):
 
 def _interpret_sanitizer(func, param, sample):
     env = {param: sample}
+    # module-level constants made of literals (tables of forbidden characters
+    # / reserved names)
+    for name, val in func.module.toplevel.items():
+        if isinstance(val, ast.AST):
+            try:
+                env.setdefault(name, ast.literal_eval(val))
+            except (ValueError, TypeError, SyntaxError,
+                    MemoryError, RecursionError):
+                pass
 
     def block(stmts):
         for stmt in stmts:
             if isinstance(stmt, (ast.Expr, ast.Import, ast.ImportFrom,
                                  ast.Pass)):
+                continue
+            if isinstance(stmt, ast.For) and not stmt.orelse:
+                # a loop over a table of literals: unrolled
+                seq = _eval_str_guard(stmt.iter, env)
+                if seq is _UNKNOWN or not isinstance(seq, (tuple, list)) \
+                        or len(seq) > 50:
+                    return 'unknown'
+                for item in seq:
+                    names = [stmt.target] if isinstance(
+                        stmt.target, ast.Name) else list(
+                            getattr(stmt.target, 'elts', []))
+                    if not names or not all(isinstance(n, ast.Name)
+                                            for n in names):
+                        return 'unknown'
+                    if isinstance(stmt.target, ast.Name):
+                        env[stmt.target.id] = item
+                    else:
+                        if not isinstance(item, (tuple, list)) or len(
+                                item) != len(names):
+                            return 'unknown'
+                        for nam, val in zip(names, item):
+                            env[nam.id] = val
+                    res = block(stmt.body)
+                    if res:
+                        return res
                 continue
             if isinstance(stmt, ast.If):
                 val = _eval_str_guard(stmt.test, env)
